@@ -102,3 +102,19 @@ pub broadcast proof fn lemma_wadd_zero(a: u64)
     reveal(wadd);
     reveal(wrap);
 }
+
+pub broadcast proof fn lemma_i2u_cast0(x: i64)
+    requires x >= 0,
+    ensures #[trigger] i2u(x) == x as u64,
+{
+}
+
+/// pointwise equality of total maps implies equality (function extensionality)
+pub open spec fn tot_eq(a: Tot, b: Tot) -> bool { forall|i: int| #[trigger] a[i] == b[i] }
+
+pub broadcast proof fn lemma_tot_eq(a: Tot, b: Tot)
+    requires #[trigger] tot_eq(a, b),
+    ensures a == b,
+{
+    assert(a.f =~= b.f);
+}
